@@ -67,7 +67,7 @@ __attribute__((noinline)) void clobber() {
     asm volatile("" ::: "memory");
 }
 
-enum Kind { K_FN0, K_FN2, K_SMALL0, K_SMALL2, K_LARGE0, K_LAMBDA, K_RUNNABLE, K_CTOR_SMALL };
+enum Kind { K_FN0, K_FN2, K_SMALL0, K_SMALL2, K_LARGE0, K_LAMBDA, K_RUNNABLE, K_CTOR_SMALL, K_SELFQ, K_DETACH };
 
 __attribute__((noinline)) void launch(tulz::Thread &t, Kind k, int &a, std::string &s) {
     switch (k) {
@@ -78,6 +78,16 @@ __attribute__((noinline)) void launch(tulz::Thread &t, Kind k, int &a, std::stri
     case K_LARGE0: { Large c; c.id = 42; for (int i = 0; i < 256; i++) c.pad[i] = (char)(i * 7); t.start(c); break; }
     case K_LAMBDA: { Canary can; int id = 41; t.start([can, id] { can.check("lambda closure"); body(id, nullptr, 41, ""); }); break; }
     case K_RUNNABLE: t.start(new Job()); break;
+    case K_SELFQ: {      // the callable asks its own Thread object how it is doing, first thing
+        tulz::Thread *tp = &t;
+        t.start([tp] {
+            if (tp->isFinished()) vs_fail("isFinished() returned true to the callable itself, which has only just been entered");
+            if (!tp->isRunning()) vs_fail("isRunning() returned false to the callable itself, which has only just been entered");
+            body(41, nullptr, 41, "");
+        });
+        break;
+    }
+    case K_DETACH: { Small c; c.id = 41; t.start(c); break; }
     case K_CTOR_SMALL: break;
     }
 }
@@ -117,6 +127,19 @@ void run(Kind k) {
     observe(*t, 0);
     vs_point(6);
     observe(*t, 1);
+    if (k == K_DETACH) {
+        // the owner lets go of the thread instead of joining it: completion is still what isFinished() reports
+        t->std_thread().detach();
+        observe(*t, 2);
+        vs_point(6);
+        observe(*t, 3);
+        vs_block_until([](void *) -> int { return vs_cell_get(CELL_EXITS) == 1; }, nullptr);
+        observe(*t, 4);
+        vs_block_until([](void *) -> int { return vs_thread_finished(1); }, nullptr);      // the Thread object must outlive its detached thread
+        if (!t->isFinished()) vs_fail("the detached thread has ended but isFinished() is false");
+        if (vs_cell_get(CELL_CALLS) != 1) vs_fail("the callable was invoked %ld times, expected exactly once", vs_cell_get(CELL_CALLS));
+        return;
+    }
     if (!t->isJoinable()) vs_fail("isJoinable() false after start()");
     t->join();
     vs_event(EV_JOIN_RET, 0, 0);
@@ -160,7 +183,8 @@ bool provider(const std::string &prop, const std::string &tier, const std::strin
         {K_FN0, "fnptr-0args", "function pointer, no arguments"}, {K_FN2, "fnptr-2args", "function pointer, (int&, std::string&) lvalue arguments"},
         {K_SMALL0, "small-closure-0args", "16-byte functor with a liveness canary"}, {K_SMALL2, "small-closure-2args", "16-byte functor with (int&, std::string&) lvalue arguments"},
         {K_LARGE0, "large-closure-0args", "functor with 256 captured bytes"}, {K_LAMBDA, "lambda-closure", "lambda capturing a canary object by value"},
-        {K_RUNNABLE, "runnable", "start(Runnable*)"}, {K_CTOR_SMALL, "ctor-small-closure", "Thread(callable) constructor"}};
+        {K_RUNNABLE, "runnable", "start(Runnable*)"}, {K_CTOR_SMALL, "ctor-small-closure", "Thread(callable) constructor"},
+        {K_SELFQ, "self-query", "a lambda that asks its own Thread object isFinished()/isRunning() on entry"}, {K_DETACH, "detached", "16-byte functor; the starter detaches the std::thread instead of joining and keeps observing isFinished()"}};
     for (auto &k : kinds) {
         VProgram p; p.name = k.name; p.describe = std::string("Thread::start with ") + k.what; p.bound = 4; p.unlock_points = true;
         Kind kk = k.k; p.body = [kk] { run(kk); };
